@@ -36,11 +36,17 @@ def extract_automaton(ctx):
     I0 = Interp(idx, Config())
     f_val = _utils_fn(ctx, I0, "_validate_utf8")
     env0 = I0.module_env(I0.base, "_utils")
-    if not isinstance(env0.vars.get("_decode"), Fn):
-        # no separate step function: read the automaton off the loop of the validator itself
+    # the automaton of the validator *as a whole* (every fast path and early exit of its loop included): states are the
+    # loop-head values of its live, relevant variables; when the function does not have that shape, fall back to reading
+    # the transition function off the separate step function
+    try:
         auto = extract_automaton_from_loop(ctx, f_val)
         ctx.cache["c06:auto"] = auto
         return auto
+    except AnalysisError as e:
+        if not isinstance(env0.vars.get("_decode"), Fn):
+            raise
+        ctx.notes.append(f"loop-head extraction not applicable ({e}); using the step function _decode")
     f_dec = _utils_fn(ctx, I0, "_decode")
     dec_q = f_dec.qualname
 
@@ -267,10 +273,53 @@ def extract_automaton_from_loop(ctx, f_val):
             rel |= _names_read(n.test)
         elif isinstance(n, (ast.Return, ast.Raise, ast.Assert)):
             rel |= _names_read(n)
+    def helper_deps(call):
+        """f(a0, a1, ...) with f a repo function returning a tuple: for each element of the result, the argument positions it
+        depends on (data flow through f's straight-line assignments; every branch condition of f counts for every element)."""
+        if not (isinstance(call, ast.Call) and isinstance(call.func, ast.Name)):
+            return None
+        q = f"{fi.module}:{call.func.id}"
+        hf = idx.functions.get(q)
+        if hf is None or call.keywords or any(isinstance(a, ast.Starred) for a in call.args):
+            return None
+        hn = hf.node
+        hparams = [a.arg for a in hn.args.posonlyargs + hn.args.args]
+        rets = [r for r in ast.walk(hn) if isinstance(r, ast.Return)]
+        if len(rets) != 1 or not isinstance(rets[0].value, ast.Tuple) or any(isinstance(x, (ast.For, ast.While, ast.Try, ast.With)) for x in ast.walk(hn)):
+            return None
+        deps = {p_: {p_} for p_ in hparams}           # name -> parameters it depends on
+        ctrl = set()
+        for x in ast.walk(hn):
+            if isinstance(x, (ast.If, ast.IfExp)):
+                ctrl |= _names_read(x.test)
+        for st_ in hn.body:                             # straight-line body, in order
+            if isinstance(st_, ast.Assign) and len(st_.targets) == 1 and isinstance(st_.targets[0], ast.Name):
+                deps[st_.targets[0].id] = set().union(*[deps.get(nm, set()) for nm in _names_read(st_.value)]) if _names_read(st_.value) else set()
+            elif isinstance(st_, (ast.Return, ast.Expr)) or (isinstance(st_, ast.Expr) and isinstance(st_.value, ast.Constant)):
+                continue
+            else:
+                return None
+        cdeps = set().union(*[deps.get(nm, set()) for nm in ctrl]) if ctrl else set()
+        out = []
+        for el in rets[0].value.elts:
+            d_ = set().union(*[deps.get(nm, set()) for nm in _names_read(el)]) if _names_read(el) else set()
+            out.append({hparams.index(p_) for p_ in (d_ | cdeps) if p_ in hparams})
+        return out
+
     changed = True
     while changed:
         changed = False
         for n in ast.walk(fn):
+            if isinstance(n, ast.Assign) and len(n.targets) == 1 and isinstance(n.targets[0], ast.Tuple) and all(isinstance(t, ast.Name) for t in n.targets[0].elts):
+                hd = helper_deps(n.value)
+                if hd is not None and len(hd) == len(n.targets[0].elts):
+                    for t, argpos in zip(n.targets[0].elts, hd):
+                        if t.id in rel:
+                            new = set().union(*[_names_read(n.value.args[i]) for i in argpos if i < len(n.value.args)]) if argpos else set()
+                            if not new <= rel:
+                                rel |= new
+                                changed = True
+                    continue
             if isinstance(n, (ast.Assign, ast.AugAssign, ast.AnnAssign)) and n.value is not None:
                 tg = n.targets if isinstance(n, ast.Assign) else [n.target]
                 if any(_names_written(t) & rel for t in tg):
